@@ -310,6 +310,10 @@ def run(model, tier="quick"):
     mutating, _nf = cell_mutation_rule(model, res)
     res.ob("R-INPUT", f"shared market data: no in-place mutation reaches an object stored in a frame cell "
                       f"(parameter-mutating functions: {sorted(mutating)})", "demeter/", ok=_nf == 0)
+    from ..rules.fresh import fresh_rule
+    if "R-FRESH" not in res.rules:
+        res.rules.append("R-FRESH")
+    fresh_rule(model, res, scope=())
     res.assumptions = ["multiprocessing pickles apply_async arguments per task (also under the fork start method)",
                        "data frames are shared read-only (R-INPUT under C02)"]
     res.not_decided = ["OS-level fork semantics", "strategies that share state on purpose (class attributes of user code)"]
